@@ -52,6 +52,16 @@ theorem coreInv_cbThen (c : Ctx) (s : St) (obs : List Obs) (frames : Nat → Lis
   · exact hk _ _ h
   · simpa using h
 
+theorem coreInv_cbCall (c : Ctx) (cb : Cb) (n : Node) (s : St) (obs : List Obs) (frames : Nat → List Frame)
+    (kOk : St → List Obs → Out) (kErr : Exc → St → List Obs → Out) (h : CoreInv s.core)
+    (hk : ∀ s' obs', CoreInv s'.core → CoreInv (kOk s' obs').1.core)
+    (he : ∀ e s' obs', CoreInv s'.core → CoreInv (kErr e s' obs').1.core) :
+    CoreInv (cbCall c cb n s obs frames kOk kErr).1.core := by
+  unfold cbCall
+  split
+  · exact he _ _ _ h
+  · exact coreInv_cbThen _ _ _ _ _ _ h hk
+
 theorem coreInv_nodeStart (c : Ctx) (s : St) (obs : List Obs) (d : DagRef) (n : Node) (force : Bool)
     (below : List Frame) (h : CoreInv s.core) : CoreInv (nodeStart c s obs d n force below).1.core := by
   unfold nodeStart
@@ -60,7 +70,8 @@ theorem coreInv_nodeStart (c : Ctx) (s : St) (obs : List Obs) (d : DagRef) (n : 
   · next hp =>
     have hp' : s.procExists n = false := by simpa using hp
     have := coreInv_mark h n hp'
-    exact coreInv_cbThen _ _ _ _ _ _ this (fun s' obs' h' => coreInv_nodeBegin _ _ _ _ _ _ _ _ h')
+    exact coreInv_cbCall _ _ _ _ _ _ _ _ this (fun s' obs' h' => coreInv_nodeBegin _ _ _ _ _ _ _ _ h')
+      (fun e s' obs' h' => by simpa using h')
 
 theorem coreInv_dagInit (c : Ctx) (s : St) (obs : List Obs) (d : DagRef) (below : List Frame)
     (h : CoreInv s.core) : CoreInv (dagInit c s obs d below).1.core := by
